@@ -57,6 +57,8 @@ func main() {
 		cmdCheck(os.Args[2:])
 	case "ssa":
 		cmdSSA(os.Args[2:])
+	case "replay":
+		cmdReplay(os.Args[2:])
 	default:
 		fmt.Fprintln(os.Stderr, "unknown command")
 		os.Exit(2)
@@ -94,6 +96,7 @@ func cmdVerify(args []string) {
 	dumpAll := fs.Bool("dumpall", false, "dump every obligation")
 	timeout := fs.Int("timeout", 10, "seconds per obligation")
 	verbose := fs.Bool("v", false, "")
+	workers := fs.Int("workers", 6, "parallel solver processes")
 	fs.Parse(args)
 	t0 := time.Now()
 	P, err := LoadProg(*repo, strings.Split(*pk, ","), "/verif")
@@ -102,6 +105,9 @@ func cmdVerify(args []string) {
 		os.Exit(2)
 	}
 	fmt.Printf("loaded in %.1fs, %d contracts\n", time.Since(t0).Seconds(), len(P.contracts))
+	for _, w := range contractWarnings {
+		fmt.Println("WARNING:", w)
+	}
 	re := regexp.MustCompile(*fn)
 	var keys []string
 	for k, ct := range P.contracts {
@@ -143,7 +149,7 @@ func cmdVerify(args []string) {
 	}
 	all = append(all, lemmaObligations(P, lemmas)...)
 	t1 := time.Now()
-	dischargeAll(all, *timeout, false, 16)
+	dischargeAll(all, *timeout, false, *workers)
 	fail := 0
 	for _, o := range all {
 		if *dumpAll && *dump != "" {
